@@ -138,20 +138,42 @@ def analyse_mode(ctx, repo, noncorr: bool):
         return
     ctx.ok("KERNEL", f"{tag}.norm.recip", "diagonal = reciprocal of the sums", where)
     guarded = False
-    while isinstance(v, Term) and v.op == "setitem":
-        base, mask, val = v.args
-        if isinstance(mask, CondV) and mask.kind == "opaque" and mask.args[0] == "==" and isinstance(mask.args[2], Num) \
-                and mask.args[2].p.is_zero() and isinstance(val, Num) and not val.p.is_zero() and vkey(mask.args[1]) == vkey(base):
-            guarded = True
-        v = base
+    unread = None
+
+    def zero_test(mask, base, op):
+        return isinstance(mask, CondV) and mask.kind == "opaque" and mask.args[0] == op and isinstance(mask.args[2], Num) \
+            and mask.args[2].p.is_zero() and vkey(mask.args[1]) == vkey(base)
+    while isinstance(v, Term) and v.op in ("setitem", "where"):
+        if v.op == "setitem":
+            base, mask, val = v.args
+            if zero_test(mask, base, "==") and isinstance(val, Num) and not val.p.is_zero():
+                guarded = True
+            v = base
+        else:
+            # np.where(s == 0, c, s)  /  np.where(s != 0, s, c)
+            if len(v.args) != 3:
+                break
+            mask, a_, b_ = v.args
+            if zero_test(mask, b_, "==") and isinstance(a_, Num) and not a_.p.is_zero():
+                guarded, v = True, b_
+            elif zero_test(mask, a_, "!=") and isinstance(b_, Num) and not b_.p.is_zero():
+                guarded, v = True, a_
+            else:
+                unread = v
+                break
     ctx.instance("DOM")
-    if guarded:
+    if unread is not None:
+        pass
+    elif guarded:
         ctx.ok("DOM", f"{tag}.norm.zero_guard", "zero sums are replaced by a non-zero value before the reciprocal", where,
                construct="sums[sums == 0] = 1")
     else:
         ctx.violate("DOM", f"{tag}.norm.zero_guard", "no replacement of zero row sums dominates the reciprocal: unvisited "
                     "cells give inf/NaN rows instead of zero rows", where, construct="np.reciprocal(sums)",
                     witness="path from sums = C.sum(...) to reciprocal without `sums[sums == 0] = c`")
+    if unread is not None:
+        ctx.inconclusive("KERNEL", f"{tag}.norm.sums", "normaliser passes through a selection the rule does not read", where, witness=vstr(unread)[:200])
+        return
     if not (isinstance(v, Term) and v.op == "spsum"):
         r = contains_top(v)
         (ctx.inconclusive if r else ctx.violate)("KERNEL", f"{tag}.norm.sums", "normaliser is not the row sum of the count "
